@@ -143,10 +143,14 @@ func (x *Exec) evalModSet(sp *FuncSpec, env *SpecEnv) *ModSet {
 				panic(fmt.Errorf("modifies %s: no field %s", ml.Src, ml.Field))
 			}
 			var valLeaf Leaf
-			for _, l := range x.Sh.Leaves(elem) {
+			ls := x.Sh.Leaves(elem)
+			for _, l := range ls {
 				if l.Role == "val" {
 					valLeaf = l
 				}
+			}
+			if len(ls) == 1 {
+				valLeaf = ls[0] // slice of pointers
 			}
 			_, comp := x.elemsComp(env.Cur, elem, valLeaf)
 			n0 := len(ms.Fields)
